@@ -147,6 +147,7 @@ impl Monitor for C06 {
 	fn lanes(&self, _tier: Tier) -> Vec<Lane> {
 		// Miri: 48 of the 324 (seed, operator) pairs per run, rotated by nothing but the list order
 		vec![
+			Lane { kind: LaneKind::Coverage(&["src/io/slippi/de.rs", "src/io/ubjson/de.rs", "src/io/mod.rs", "src/frame/mutable.rs", "src/game/shift_jis.rs"]), name: "reach", shards: vec![0], nshards: 1 },
 			Lane { kind: LaneKind::AsanQuick, name: "asan-quick", shards: vec![0], nshards: 1 },
 			Lane { kind: LaneKind::Miri, name: "hostile", shards: (0..324).step_by(7).collect(), nshards: 324 },
 		]
